@@ -7,7 +7,7 @@
 (*  sim    (tlc -simulate): random interleavings on a random graph            *)
 (* Histories are printed in states where the network is empty again.          *)
 EXTENDS RouteDiscovery, Json, IOUtils
-VARIABLE hist
+VARIABLES hist, pre     \* pre: the model state before the last step (edges mode: one history per (source state, step))
 
 N3 == {1, 2, 3}
 N4 == {1, 2, 3, 4}
@@ -22,7 +22,7 @@ AllConnected == ConnectedGraphs
 
 Depth == IF "VERIF_DEPTH" \in DOMAIN IOEnv THEN atoi(IOEnv.VERIF_DEPTH) ELSE 12
 
-GInit == Init /\ hist = <<>>
+GInit == Init /\ hist = <<>> /\ pre = <<>>
 
 \* (a relayed stream that finds no next hop starts a route search of its own in the implementation; the
 \* model just drops it; the driver gives the search up and the judge counts it as one more FindRoute)
@@ -34,14 +34,15 @@ InjectUseful == last'.op = "inject" =>
 GNext == /\ Len(hist) < Depth
          /\ Next
          /\ InjectUseful
-         /\ hist' = Append(hist, last')
-GSpec == GInit /\ [][GNext]_<<vars, hist>>
+         /\ hist' = Append(hist, last') /\ pre' = <<st, net>>
+GSpec == GInit /\ [][GNext]_<<vars, hist, pre>>
 
-EdgeView == <<links, st, net, nfinds, ninjects, nexp, nloss, last>>
+EdgeView == <<pre, links, st, net, nfinds, ninjects, nexp, nloss, last>>
 
 Scn == [par |-> [kind |-> "net", nodes |-> Node, links |-> links, alpha |-> Alpha, maxttl |-> MaxTTL], ops |-> hist]
 
 Quiet == net = <<>> /\ hist # <<>>
 EmitQuiet == Quiet => PrintT(<<"SCN", ToJson(Scn)>>)
+EmitAll   == hist # <<>> => PrintT(<<"SCN", ToJson(Scn)>>)
 EmitDone  == (Quiet /\ nfinds = MaxFinds /\ ninjects = MaxInjects) => PrintT(<<"SCN", ToJson(Scn)>>)
 =============================================================================
